@@ -9,6 +9,7 @@ Emulator.
   cpu <19 fields as in C01>        load the CPU state
   clk <t>                          frame clock := t, frame counter := 0
   step                             one `emulate` -> <cpu 19 fields> <frameClocks> <frames> <border> <7ffd> <ayreg>
+  ram                              final value of every RAM location stored to so far -> page:offset:value ...
 All numbers hexadecimal except <48|128>.
 -/
 namespace Driver.Sys
@@ -20,7 +21,18 @@ structure St where
 
 def pokeBytes (z : ZX) (a : BitVec 16) (bs : List (BitVec 8)) : ZX :=
   (bs.foldl (fun (acc : ZX × BitVec 16) b =>
-    ({ acc.1 with ctl := acc.1.ctl.writeInternal acc.2 b }, acc.2 + 1)) (z, a)).1
+    (Z80.Bus.writeInternal acc.2 b acc.1, acc.2 + 1)) (z, a)).1
+
+/-- the final value of every RAM location ever stored to (pokes included): `page:offset:value` -/
+def ramLog (z : ZX) : String :=
+  -- newest first: keep the first occurrence of each location
+  let rec go (l : List (Nat × Nat × BitVec 8)) (seen : List (Nat × Nat)) (acc : List String) : List String :=
+    match l with
+    | [] => acc
+    | (p, o, v) :: rest =>
+      if seen.contains (p, o) then go rest seen acc
+      else go rest ((p, o) :: seen) (s!"{toHex 1 p}:{toHex 4 o}:{hex8 v}" :: acc)
+  String.intercalate " " (go z.wlog [] [])
 
 def handle (s : St) : List String → St × String
   | ["new", k, ke, mo] =>
@@ -38,6 +50,7 @@ def handle (s : St) : List String → St × String
     let c := r.2.ctl
     ({ cpu := r.1, zx := r.2 },
       s!"{Driver.C01.showCpu r.1} {toHex 5 c.frameClocks} {toHex 4 c.passedFrames} {hex8 r.2.border} {hex8 c.port7ffd} {toHex 1 r.2.ayReg}")
+  | ["ram"] => (s, ramLog s.zx)
   | _ => (s, "bad-op")
 
 def proto : Driver.Proto := { σ := St, init := {}, handle := handle }
